@@ -222,11 +222,32 @@ func (g *Graph) NilnessOf(e ast.Expr, p Point) int {
 		}
 	}
 	s := f.Norm(e, &p)
-	if ok, _ := g.Dominated(p, "eq("+s+",nil)"); ok {
-		return -1
+	// a question about the CURRENT value of a local: the test must lie between
+	// the definition that reaches p and p itself (an earlier test of an
+	// identically spelled value - e.g. a previous call of the same method
+	// assigned to the same variable - says nothing about this one)
+	from := g.Entry()
+	if id, ok := e.(*ast.Ident); ok {
+		if v := g.localVar(id); v != nil {
+			if d := g.UniqueDef(v, p); d != nil && d.Kind != DefParam && d.Kind != DefZero {
+				from = g.After(d.At)
+			}
+		}
 	}
-	if ok, _ := g.Dominated(p, "!eq("+s+",nil)"); ok {
-		return +1
+	if from != g.Entry() {
+		if len(g.EdgesMatching("eq("+s+",nil)")) > 0 && g.DominatedFrom(from, p, []string{"eq(" + s + ",nil)"}) {
+			return -1
+		}
+		if len(g.EdgesMatching("!eq("+s+",nil)")) > 0 && g.DominatedFrom(from, p, []string{"!eq(" + s + ",nil)"}) {
+			return +1
+		}
+	} else {
+		if ok, _ := g.Dominated(p, "eq("+s+",nil)"); ok {
+			return -1
+		}
+		if ok, _ := g.Dominated(p, "!eq("+s+",nil)"); ok {
+			return +1
+		}
 	}
 	// a local whose every reaching definition is nil / non-nil
 	if id, ok := e.(*ast.Ident); ok {
